@@ -69,5 +69,6 @@ old = {}
 if os.path.exists(dst + "/meta.json"):
     old = json.load(open(dst + "/meta.json"))
 meta["needs_to_manifest"] = old.get("needs_to_manifest", "see notes.md")
+meta["what_was_run"] = ["tools/seed_eval.py %s %s  (demo on /repo -> exit 0; patch applied in a scratch worktree: demo -> exit != 0; repository suite there; then `VERIF_REPO=<worktree> python -m harness.run <check> --tier quick`)" % (ID, X)]
 json.dump(meta, open(dst + "/meta.json", "w"), indent=1)
 print("confirmed" if meta["confirmed"] else "NOT CONFIRMED", {k: meta[k] for k in ("demo_on_unchanged_repo_exit", "demo_with_change_exit", "suite_green")})
